@@ -470,3 +470,70 @@ Section Std.
       apply Hv; auto.
   Qed.
 End Std.
+
+(* ------------------------------------------------------------------------------------------------ *)
+(** * the statements as pinned in Props/C15.v *)
+
+Lemma bit_index_formula lb i : 0 <= lb -> 0 <= i < 8 * 2 ^ lb ->
+  bit_index lb i = (i mod 8) * 2 ^ lb + i / 8 /\ 0 <= bit_index lb i < 8 * 2 ^ lb /\ bit_index_inv lb (bit_index lb i) = i.
+Proof.
+  intros Hlb Hi. split; [exact (bit_index_arith_eq lb i Hlb Hi)|].
+  split; [exact (bit_index_range lb i Hlb Hi) | exact (bit_index_inv_left lb i Hlb Hi)].
+Qed.
+
+Lemma roundtrip_all lb logn : 0 <= lb -> lb + 3 <= logn ->
+  let T := std_wty lb in
+  (forall w, 0 <= w < 2 ^ (8 * 2 ^ lb) -> p_dec T logn (p_enc T logn w) = w) /\
+  (forall w i, 0 <= i < 8 * 2 ^ lb -> p_enc T logn w (cidx T logn i) = bitz w i) /\
+  (forall w j, (forall i, 0 <= i < 8 * 2 ^ lb -> cidx T logn i <> j) -> p_enc T logn w j = 0) /\
+  (forall w bit j, 0 <= bit < 8 * 2 ^ lb -> 0 <= j < 2 ^ logn ->
+     get_bit_glwe T logn bit (p_enc T logn w) j = if j =? 0 then bitz w bit else 0) /\
+  (forall w bit, 0 <= bit < 8 * 2 ^ lb -> get_bit_lwe T logn bit (p_enc T logn w) = bitz w bit) /\
+  (forall w y j, 0 <= y < 2 ^ lb -> 0 <= j < 2 ^ logn ->
+     get_byte T logn y (p_enc T logn w) j =
+       if j mod (2 ^ lb * 2 ^ (logn - (lb + 3))) =? 0 then bitz w (8 * y + j / (2 ^ lb * 2 ^ (logn - (lb + 3)))) else 0) /\
+  (forall bs : list bool, length bs = nbits T ->
+     exists q, pack T logn (map (fun b : bool => p_const (if b then 1 else 0)) bs) = Some q /\
+       p_dec T logn q = word_of_bits (nbits T) (fun i => nth (Z.to_nat i) bs false) /\
+       forall k j, (k < nbits T)%nat -> 0 <= j < 2 ^ logn ->
+         get_bit_glwe T logn (Z.of_nat k) q j = if j =? 0 then Z.b2z (nth k bs false) else 0).
+Proof.
+  intros Hlb Hlogn T.
+  assert (Hb : 0 <= w_bits T) by (unfold T; cbn [std_wty w_bits]; pose proof (pow2_pos' lb Hlb); lia).
+  split; [intros w Hw; exact (dec_enc T logn Hb (cidx_inj lb logn Hlb Hlogn) w Hw)|].
+  split; [intros w i Hi; exact (enc_at T logn Hb (cidx_inj lb logn Hlb Hlogn) w i Hi)|].
+  split; [intros w j H; exact (enc_off T logn Hb w j H)|].
+  split; [exact (get_bit_glwe_enc lb logn Hlb Hlogn)|].
+  split; [exact (get_bit_lwe_enc lb logn Hlb Hlogn)|].
+  split; [exact (get_byte_enc lb logn Hlb Hlogn) | exact (pack_bits lb logn Hlb Hlogn)].
+Qed.
+
+Lemma splice_coeffs_all lb logn : 0 <= lb -> lb + 3 <= logn ->
+  forall dst src (a b : poly), 0 <= dst < 2 ^ lb -> 0 <= src < 2 ^ lb ->
+  let gap := 2 ^ (logn - (lb + 3)) in
+  (forall j, 0 <= j < 2 ^ logn ->
+     zero_byte (std_wty lb) logn dst a j = if (j - dst * gap) mod (2 ^ lb * gap) =? 0 then 0 else a j) /\
+  exists r, splice_u8 (std_wty lb) logn dst src a b = Some r /\
+    forall j, 0 <= j < 2 ^ logn ->
+      r j = if (j - dst * gap) mod (2 ^ lb * gap) =? 0 then b (j - dst * gap + src * gap) else a j.
+Proof.
+  intros Hlb Hlogn dst src a b Hd Hs gap. split.
+  - intros j Hj. exact (zero_byte_closed lb logn Hlb Hlogn dst a j Hd Hj).
+  - exact (splice_u8_closed lb logn Hlb Hlogn dst src a b Hd Hs).
+Qed.
+
+Lemma splice_positions_all lb logn : 0 <= lb -> lb + 3 <= logn -> forall wa wb,
+  let T := std_wty lb in
+  (forall dst src, 0 <= dst < 2 ^ lb -> 0 <= src < 2 ^ lb ->
+     exists r, splice_u8 T logn dst src (p_enc T logn wa) (p_enc T logn wb) = Some r /\
+       forall i, 0 <= i < 8 * 2 ^ lb ->
+         Z.testbit (p_dec T logn r) i = if i / 8 =? dst then Z.testbit wb (8 * src + i mod 8) else Z.testbit wa i) /\
+  (forall dst src, 0 <= dst -> 2 * dst + 1 < 2 ^ lb -> 0 <= src -> 2 * src + 1 < 2 ^ lb ->
+     exists r, splice_u16 T logn dst src (p_enc T logn wa) (p_enc T logn wb) = Some r /\
+       forall i, 0 <= i < 8 * 2 ^ lb ->
+         Z.testbit (p_dec T logn r) i = if i / 16 =? dst then Z.testbit wb (16 * src + i mod 16) else Z.testbit wa i).
+Proof.
+  intros Hlb Hlogn wa wb T. split.
+  - intros dst src. exact (splice_u8_bits lb logn Hlb Hlogn dst src wa wb).
+  - intros dst src. exact (splice_u16_bits lb logn Hlb Hlogn dst src wa wb).
+Qed.
